@@ -43,7 +43,7 @@ impl Scenario for C07 {
     }
     fn runs(&self, tier: Tier) -> u64 {
         match tier {
-            Tier::Quick => 350_000,
+            Tier::Quick => 300_000,
             Tier::Thorough => 24_000_000,
         }
     }
@@ -156,13 +156,13 @@ impl Scenario for C08 {
     }
     fn runs(&self, tier: Tier) -> u64 {
         match tier {
-            Tier::Quick => 150_000,
+            Tier::Quick => 120_000,
             Tier::Thorough => 5_000_000,
         }
     }
     fn log_runs(&self, tier: Tier) -> u64 {
         match tier {
-            Tier::Quick => 15_000,
+            Tier::Quick => 12_000,
             Tier::Thorough => 300_000,
         }
     }
@@ -410,13 +410,13 @@ impl Scenario for C12 {
     }
     fn runs(&self, tier: Tier) -> u64 {
         match tier {
-            Tier::Quick => 150_000,
+            Tier::Quick => 100_000,
             Tier::Thorough => 6_000_000,
         }
     }
     fn log_runs(&self, tier: Tier) -> u64 {
         match tier {
-            Tier::Quick => 15_000,
+            Tier::Quick => 12_000,
             Tier::Thorough => 300_000,
         }
     }
